@@ -126,6 +126,7 @@ func (e *Env) RunClients(phase string) bool {
 		}
 		// a deadlock is a C11 violation by definition, whichever property the run was for
 		e.C.ViolateProp("C11", "deadlock", map[string]string{"phase": phase}, e.S.Steps, "%v; parked: %v\n%s", v, e.S.ParkedPoints(), trimDump(v.Dump))
+		e.C.TolerateLeak = true // the goroutines that are stuck stay behind when the bubble ends; the violation is the report
 	default:
 		e.C.Res.Harness = fmt.Sprintf("%s: %v; parked: %v", phase, err, e.S.ParkedPoints())
 	}
